@@ -921,6 +921,7 @@ class FD:
         if fn.args.kwarg is not None:
             env[fn.args.kwarg.arg] = extra_kw
         self._mods.append(getattr(fn, '_module', None) or (self._mods[-1] if self._mods else None))
+        self._default_class = fn._parent if isinstance(getattr(fn, '_parent', None), ast.ClassDef) else None
         try:
             for p, d in zip(params[len(params) - len(defaults):], defaults):
                 if p not in env:
@@ -951,14 +952,29 @@ class FD:
         try:
             return self.eval(d, {})
         except Inconclusive:
+            cls = getattr(self, '_default_class', None)
+            if isinstance(d, ast.Name) and cls is not None:
+                # a default naming a class-level constant (`def __init__(self, delta=DELTA)`): defaults are evaluated
+                # in the class body's scope
+                for st in cls.body:
+                    if isinstance(st, ast.Assign) and any(isinstance(t, ast.Name) and t.id == d.id for t in st.targets):
+                        try:
+                            return self.eval(st.value, {})
+                        except Inconclusive:
+                            break
             o = Obj('default of %s' % name)
             o.attrs['__open__'] = True
             return o
 
     def class_constant(self, obj, attr):
         """Value of a class-level assignment `attr = <expr>` in the class the object was bound to."""
-        cd = obj.attrs.get('__classdef__')
-        for st in (cd.body if cd is not None else []):
+        cd0 = obj.attrs.get('__classdef__')
+        chain = [cd0] if cd0 is not None else []
+        if cd0 is not None and self.sym is not None and getattr(cd0, '_module', None) is not None:
+            ci = self.sym.classes.get((cd0._module.name, getattr(cd0, '_qualname', cd0.name)))
+            if ci is not None:
+                chain = [k.node for k in self.sym.mro(ci) if hasattr(k, 'node')]   # inherited class attributes
+        for cd, st in [(c, st_) for c in chain for st_ in c.body]:
             if isinstance(st, ast.Assign) and any(isinstance(t, ast.Name) and t.id == attr for t in st.targets):
                 self._mods.append(getattr(cd, '_module', None) or (self._mods[-1] if self._mods else None))
                 try:
